@@ -174,6 +174,8 @@ pub fn check_packet_routes(r: &mut Report, h: &Hello) {
                         IpPacket::None => Ok(None),
                     };
                     if let Ok(Some(x)) = o {
+                        // what the output shows must be what it carries (rendering oracle in drv.rs)
+                        let _ = crate::drv::tls_out(&x);
                         outs.push(obs_of_client(&x.sig));
                     }
                 }
